@@ -182,3 +182,22 @@ theorem C14_wccn_label_invariance (chol : (n : ℕ) → (Fin n → Fin n → ℝ
     simp [List.map_map, Function.comp_def, hsc]
   simp only [wccnFit, hS]
 
+
+/-- the executed (materialised) fits compute the specification's projections -/
+theorem C14_exec_eq_spec (chol : (n : ℕ) → (Fin n → Fin n → ℝ) → Fin n → Fin n → ℝ) (X : Fin N → Fin D → ℝ)
+    (y : Fin N → ℤ) (classes : List ℤ) :
+    (whitenFitV chol X).toProj = whitenFit chol X ∧ (wccnFitV chol X y classes).toProj = wccnFit chol X y classes := by
+  constructor
+  · simp only [whitenFitV, ProjV.toProj, whitenFit, Proj.mk.injEq]
+    refine ⟨?_, ?_⟩
+    · funext a b
+      simp only [Fin.getElem_fin, Vector.getElem_ofFn]
+      rfl
+    · funext a
+      simp only [Fin.getElem_fin, Vector.getElem_ofFn]
+  · simp only [wccnFitV, ProjV.toProj, wccnFit, Proj.mk.injEq]
+    refine ⟨?_, ?_⟩
+    · funext a b
+      simp only [Fin.getElem_fin, Vector.getElem_ofFn]
+    · funext a
+      simp only [Fin.getElem_fin, Vector.getElem_ofFn]
